@@ -380,7 +380,7 @@ static void put_body(struct bytes *b, int type, int ver, uint32_t nbytes)
 
 	switch (type) {
 	case PT_IPV4:
-		pdu_ipv4(&t, ver, 1, 16, 16, 0xc0a80000, 300); /* universe record 2 */
+		pdu_ipv4(&t, ver, 1, U_PFX[2].len, U_PFX[2].maxlen, U_PFX[2].a[0], U_PFX[2].asn); /* universe record 2 */
 		break;
 	case PT_IPV6:
 		pdu_ipv6(&t, ver, 1, 0, 0, (uint32_t[]){0, 0, 0, 0}, 400); /* universe record 4 */
@@ -408,6 +408,8 @@ static void put_body(struct bytes *b, int type, int ver, uint32_t nbytes)
 	}
 	by_free(&t);
 }
+
+static int SOCKVER = 1; /* --sockver=0: the session of the stream cases runs at protocol version 0 */
 
 static void build_alphabet(bool reduced)
 {
@@ -454,7 +456,7 @@ static void build_alphabet(bool reduced)
 					h->cls = CL_ERROR_PDU;
 				else if (lens[li] < 8 || lens[li] > 3248)
 					h->cls = CL_BADLEN;
-				else if (ver != 1 && type != PT_ERROR)
+				else if (ver != SOCKVER && type != PT_ERROR)
 					h->cls = CL_FOREIGN_VER; /* refined at run time against the socket's version */
 				else if (!known)
 					h->cls = CL_UNKNOWN_TYPE;
@@ -546,44 +548,54 @@ static void build_semantic(void)
 
 	SEM0 = NALPHA;
 	h = alpha_new("cache-response(session ok)");
-	pdu_cache_response(&h->b, 1, SESSION);
+	pdu_cache_response(&h->b, SOCKVER, SESSION);
 	h = alpha_new("cache-response(foreign session)");
-	pdu_cache_response(&h->b, 1, SESSION ^ 0x5555);
+	pdu_cache_response(&h->b, SOCKVER, SESSION ^ 0x5555);
 	h->cls = CL_SESSION;
 	h = alpha_new("end-of-data(session ok)");
-	pdu_eod(&h->b, 1, SESSION, 9, 3600, 600, 7200);
+	pdu_eod(&h->b, SOCKVER, SESSION, 9, 3600, 600, 7200);
 	h = alpha_new("end-of-data(foreign session)");
-	pdu_eod(&h->b, 1, SESSION ^ 0x5555, 9, 3600, 600, 7200);
+	pdu_eod(&h->b, SOCKVER, SESSION ^ 0x5555, 9, 3600, 600, 7200);
 	h->cls = CL_SESSION;
 	h = alpha_new("announce ipv4 absent record");
-	pdu_ipv4(&h->b, 1, 1, 16, 16, 0xc0a80000, 300);
+	pdu_ipv4(&h->b, SOCKVER, 1, U_PFX[2].len, U_PFX[2].maxlen, U_PFX[2].a[0], U_PFX[2].asn);
 	h = alpha_new("announce ipv4 present record (duplicate)");
-	pdu_ipv4(&h->b, 1, 1, 8, 16, 0x0a000000, 100);
+	pdu_ipv4(&h->b, SOCKVER, 1, 8, 16, 0x0a000000, 100);
 	h->cls = CL_DUP;
 	h = alpha_new("withdraw ipv4 present record");
-	pdu_ipv4(&h->b, 1, 0, 16, 24, 0x0a010000, 200);
+	pdu_ipv4(&h->b, SOCKVER, 0, 16, 24, 0x0a010000, 200);
 	h = alpha_new("withdraw ipv4 absent record (unknown)");
-	pdu_ipv4(&h->b, 1, 0, 16, 16, 0xc0a80000, 300);
+	pdu_ipv4(&h->b, SOCKVER, 0, U_PFX[2].len, U_PFX[2].maxlen, U_PFX[2].a[0], U_PFX[2].asn);
 	h->cls = CL_WD_UNKNOWN;
 	h = alpha_new("announce ipv6 present record (duplicate)");
-	pdu_ipv6(&h->b, 1, 1, 32, 48, pre6, 100);
+	pdu_ipv6(&h->b, SOCKVER, 1, 32, 48, pre6, 100);
 	h->cls = CL_DUP;
-	h = alpha_new("announce router key present (duplicate)");
-	pdu_router_key(&h->b, 1, 1, U_KEY[0].ski, U_KEY[0].asn, U_KEY[0].spki);
-	h->cls = CL_DUP;
-	h = alpha_new("withdraw router key absent (unknown)");
-	pdu_router_key(&h->b, 1, 0, U_KEY[1].ski, U_KEY[1].asn, U_KEY[1].spki);
-	h->cls = CL_WD_UNKNOWN;
+	if (SOCKVER >= 1) { /* router keys do not exist in version 0 */
+		h = alpha_new("announce router key present (duplicate)");
+		pdu_router_key(&h->b, 1, 1, U_KEY[0].ski, U_KEY[0].asn, U_KEY[0].spki);
+		h->cls = CL_DUP;
+		h = alpha_new("withdraw router key absent (unknown)");
+		pdu_router_key(&h->b, 1, 0, U_KEY[1].ski, U_KEY[1].asn, U_KEY[1].spki);
+		h->cls = CL_WD_UNKNOWN;
+	}
 	h = alpha_new("ipv4 prefix flags=2");
-	pdu_ipv4(&h->b, 1, 2, 16, 16, 0xc0a80000, 300);
+	pdu_ipv4(&h->b, SOCKVER, 2, 16, 16, 0xc0a80000, 300);
+	h->cls = CL_BADFLAGS;
+	if (SOCKVER >= 1) {
+		h = alpha_new("router key flags=3 (absent key)");
+		pdu_router_key(&h->b, 1, 3, U_KEY[1].ski, U_KEY[1].asn, U_KEY[1].spki);
+		h->cls = CL_BADFLAGS;
+	}
+	h = alpha_new("ipv6 prefix flags=255 (absent record)");
+	pdu_ipv6(&h->b, SOCKVER, 255, 0, 0, (uint32_t[]){0, 0, 0, 0}, 400);
 	h->cls = CL_BADFLAGS;
 	h = alpha_new("ipv4 prefix length 33");
-	pdu_ipv4(&h->b, 1, 1, 33, 33, 0xc0a80000, 300);
+	pdu_ipv4(&h->b, SOCKVER, 1, 33, 33, 0xc0a80000, 300);
 	h->cls = CL_BADFLAGS; /* same class of report: corrupt data, echoing the PDU */
 	h = alpha_new("serial-notify");
-	pdu_serial_notify(&h->b, 1, SESSION, 9);
+	pdu_serial_notify(&h->b, SOCKVER, SESSION, 9);
 	h = alpha_new("cache-reset");
-	pdu_cache_reset(&h->b, 1);
+	pdu_cache_reset(&h->b, SOCKVER);
 	h->cls = CL_UNEXPECTED;
 	NSEM = NALPHA - SEM0;
 }
@@ -623,7 +635,7 @@ static void make_stream(const struct stream_case *c, struct bytes *out)
 	FIRST_HOSTILE_OFF = FIRST_HOSTILE_LEN = 0;
 	FIRST_CLS = CL_NONE;
 	if (c->prefix)
-		pdu_cache_response(out, 1, SESSION);
+		pdu_cache_response(out, SOCKVER, SESSION);
 	if (c->special) {
 		/* a chain of records on the same bits whose lengths exceed the address width */
 		int n = c->special == 1 ? 40 : 140;
@@ -812,6 +824,7 @@ static void run_stream(struct outcome *o)
 	SOCK->last_update = ENV.now - 10;
 	SOCK->state = c->entry ? RTR_ESTABLISHED : RTR_SYNC;
 	SOCK->has_received_pdus = true; /* mid-connection: no first-PDU downgrade */
+	SOCK->version = SOCKVER;
 	ENV.is_open = true;
 	make_stream(c, &STREAM);
 	env_feed(STREAM.p, STREAM.len);
@@ -1177,7 +1190,7 @@ static void run_cases(void)
 /* ================================================================== C03: responses through the real FSM thread */
 enum { Y_ANN = 0, Y_WD = 1 };
 #define NSYM_REC 14 /* announce / withdraw x 7 universe records */
-enum { Y_FLAGS2 = NSYM_REC, Y_NOTIFY, Y_RESETQ, Y_CRESET, Y_CRESP, Y_BADLEN, Y_ERRPDU, Y_WRONGVER, Y__N };
+enum { Y_FLAGS2 = NSYM_REC, Y_NOTIFY, Y_RESETQ, Y_CRESET, Y_CRESP, Y_BADLEN, Y_ERRPDU, Y_WRONGVER, Y_KEY_FLAGS3, Y_V4_FLAGS3, Y_V6_FLAGS255, Y__N };
 /* bulk symbols: announce the first K "new" fillers of a family (K = 100, 101, 201), withdraw all "old" fillers of a family */
 enum { Y_BULK_ANN = 32, Y_BULK_WD = Y_BULK_ANN + 9, Y_BULK_END = Y_BULK_WD + 3 };
 static const int BULK_K[3] = {100, 101, 201};
@@ -1204,7 +1217,8 @@ static struct bulk_obs R_BOBS_AT_NEXTQ;
 static void sym_str(struct vbuf *b, int y)
 {
 	static const char *rn[7] = {"v4-present(twin of other source)", "v4-present", "v4-absent", "v6-present", "v6-absent(::/0)", "key-present", "key-absent"};
-	static const char *on[] = {"prefix-pdu-flags=2", "serial-notify", "reset-query", "cache-reset", "cache-response", "bad-length-pdu", "error-report", "wrong-version-pdu"};
+	static const char *on[] = {"prefix-pdu-flags=2", "serial-notify", "reset-query", "cache-reset", "cache-response", "bad-length-pdu", "error-report", "wrong-version-pdu",
+				   "router-key-pdu-flags=3(absent key)", "prefix-pdu-flags=3(absent v4 record)", "prefix-pdu-flags=255(absent v6 record)"};
 
 	if (y < NSYM_REC)
 		vb_printf(b, "%s %s", y % 2 == Y_ANN ? "announce" : "withdraw", rn[y / 2]);
@@ -1300,6 +1314,16 @@ static void put_test_response(struct bytes *b)
 			break;
 		case Y_WRONGVER:
 			pdu_ipv4(b, 0, 1, 16, 16, 0xc0a80000, 300);
+			break;
+		/* invalid flag values with the announce bit set, on records the socket does not hold */
+		case Y_KEY_FLAGS3:
+			cache_put_record(b, 1, U_NPFX + 1, 3);
+			break;
+		case Y_V4_FLAGS3:
+			cache_put_record(b, 1, 2, 3);
+			break;
+		case Y_V6_FLAGS255:
+			cache_put_record(b, 1, 4, 255);
 			break;
 		}
 	}
@@ -1724,6 +1748,7 @@ static void worker(void)
 {
 	universe_init();
 	vset_init(&OUTCOMES, 1024);
+	SOCKVER = (int)v_argl("sockver", 1);
 	build_alphabet(v_flag("reduced"));
 	build_semantic();
 	if (!strcmp(PROP, "C03")) {
